@@ -71,7 +71,7 @@ chk("C15", "E-prod under memory monitors", PROD + " executed under a guard-page 
     "The asm! operand contract (an `in` register is decremented) is a compile-time obligation no execution-based monitor can see; not claimed.",
     "DESIGN.md 4/C15")
 chk("C16", "E-prod over the configuration lattice", "exhaustive enumeration of the feature-subset lattice (build) and transcript equality across configurations",
-    "All 16 subsets of {rand,serde,quickcheck,arbitrary} with std and the 4 subsets of {rand,serde} without std are built from the working tree; one deterministic transcript (radix conversions, roots, and a cross-section of all other operations) is produced in {std,no_std} x {release,debug-assertions} + all-features (+ the dev profile in thorough) and must be byte-identical and agree with refint; the complete text/radix space of C06 is additionally run in the no_std build, and the documented-failure set of C14 (must panic / must be None) in {std,no_std} x {release,debug-assertions}, so a failure behaviour that differs between configurations is reported.",
+    "All 16 subsets of {rand,serde,quickcheck,arbitrary} with std and the 4 subsets of {rand,serde} without std are built from the working tree; one deterministic transcript (radix conversions, roots, and a cross-section of all other operations) is produced in {std,no_std} x {release,debug-assertions} + all-features (+ the dev profile in thorough) and must be byte-identical and agree with refint; the complete text/radix space of C06 is additionally run in the no_std build, and the documented-failure set of C14 (must panic / must be None) in {std,no_std} x {release,debug-assertions}, so a failure behaviour that differs between configurations is reported; C10's operator-form matrix (every form x the extreme values of every primitive type) runs in the release and the debug-assertion profile.",
     "Only x86_64-linux is present: 32-bit digit code and non-x86 fallbacks cannot be built here.",
     "DESIGN.md 4/C16")
 chk("C17", "E-prod", PROD,
